@@ -49,6 +49,14 @@ Defs == { [key |-> "gene", loc |-> Rg(2, 5, FALSE, FALSE), props |-> <<>>],
           [key |-> "misc_feature", loc |-> Jn(<<Rg(0, 2, FALSE, FALSE), Rg(4, 6, FALSE, FALSE)>>), props |-> <<>>],
           [key |-> "gene", loc |-> Rg(5, 6, TRUE, TRUE), props |-> <<>>] }
 
+AddF(d) == [key |-> d.key, label |-> "", loc |-> d.loc, props |-> d.props]
+DefSeq == SetToSeq(Defs)
+Tabs == {<<AddF(DefSeq[1])>>, <<AddF(DefSeq[2]), AddF(DefSeq[3])>>, <<AddF(DefSeq[6]), AddF(DefSeq[5]), AddF(DefSeq[1])>>,
+         <<AddF(DefSeq[4]), AddF(DefSeq[2])>>}
+\* queries as text and as ASCII codes: "cd" occurs in RA (forward) and RD (upper case); "hg" is the reverse
+\* complement of "cd" (c<->g, d<->h); "qr"/"ut" hit RC; "zz" hits nothing; "a" is a one-letter query
+Queries == {<<"cd", <<99, 100>>>>, <<"hg", <<104, 103>>>>, <<"CD", <<67, 68>>>>, <<"zz", <<122, 122>>>>, <<"a", <<97>>>>, <<"t", <<116>>>>}
+KeyProps == {<< <<>>, "misc_feature", <<>> >>, << <<"-k", "hit">>, "hit", <<>> >>, << <<"-q", "note=nn">>, "misc_feature", << <<"note", "nn">> >> >>}
 NoSem == [none |-> TRUE]
 Cmds ==
   {[cmd |-> c, args |-> <<>>, sem |-> NoSem] : c \in {"reverse", "complement", "repair", "clear", "length"}}
@@ -58,7 +66,11 @@ Cmds ==
   \cup {[cmd |-> "select", args |-> (IF v THEN <<"-v">> ELSE <<>>) \o (IF s = "both" THEN <<>> ELSE <<"-s", s>>) \o [j \in 1..Len(ss) |-> PrintSelector(ss[j])],
          sem |-> [sels |-> ss, invert |-> v, strand |-> s]] : ss \in SelSets, v \in BOOLEAN, s \in {"both", "forward", "reverse"}}
   \cup {[cmd |-> "define", args |-> FlatSeq([j \in 1..Len(d.props) |-> <<"-q", d.props[j][1] \o "=" \o d.props[j][2]>>]) \o <<d.key, PrintLoc(d.loc)>>,
-         sem |-> [key |-> d.key, label |-> "", loc |-> d.loc, props |-> d.props]] : d \in Defs}
+         sem |-> [adds |-> <<[key |-> d.key, label |-> "", loc |-> d.loc, props |-> d.props]>>]] : d \in Defs}
+  \* annotate: the harness writes sem.adds as a feature table file and substitutes its path for {table}
+  \cup {[cmd |-> "annotate", args |-> <<"{table}">>, sem |-> [adds |-> t]] : t \in Tabs}
+  \cup {[cmd |-> "search", args |-> <<"-e">> \o (IF nc THEN <<"--no-complement">> ELSE <<>>) \o kp[1] \o <<"@" \o q[1]>>,
+         sem |-> [query |-> q[2], key |-> kp[2], props |-> kp[3], nocomp |-> nc]] : q \in Queries, nc \in BOOLEAN, kp \in KeyProps}
 
 All == SetToSeq({<<s, c>> : s \in Streams, c \in Cmds})
 Picked == SelectSeq([j \in 1..Len(All) |-> j], LAMBDA j : j % Stride = Offset % Stride)
